@@ -489,10 +489,16 @@ impl<'tcx> Dumper<'tcx> {
         }
     }
 
-    fn body(&mut self, did: DefId, body: &mir::Body<'tcx>, kind: &str) -> J {
+    fn body(&mut self, did: DefId, body: &mir::Body<'tcx>, kind: &str, promoted: Option<usize>) -> J {
         let tcx = self.tcx;
         let mut o = J::obj();
-        o.set("id", s(self.path(did)));
+        match promoted {
+            Some(pi) => {
+                o.set("id", s(format!("{}::{{promoted#{}}}", self.path(did), pi)));
+                o.set("promoted_of", s(self.path(did)));
+            }
+            None => o.set("id", s(self.path(did))),
+        }
         o.set("kind", s(kind));
         let (file, lo) = self.line_of(body.span);
         o.set("file", s(file.clone()));
@@ -808,13 +814,17 @@ impl<'tcx> Dumper<'tcx> {
                         DefKind::AssocFn => "method",
                         _ => "closure",
                     };
-                    let bj = self.body(did, body, kind);
+                    let bj = self.body(did, body, kind, None);
                     bodies.push(bj);
+                    for (pi, pbody) in tcx.promoted_mir(did).iter_enumerated() {
+                        let pj = self.body(did, pbody, "promoted", Some(pi.as_usize()));
+                        bodies.push(pj);
+                    }
                 }
                 DefKind::Const { .. } | DefKind::Static { .. } | DefKind::AssocConst { .. } => {
                     let body = tcx.mir_for_ctfe(did);
                     let kind = if matches!(dk, DefKind::Static { .. }) { "static" } else { "const" };
-                    let bj = self.body(did, body, kind);
+                    let bj = self.body(did, body, kind, None);
                     bodies.push(bj);
                 }
                 _ => {}
